@@ -103,6 +103,11 @@ func dereferenceJSONPointer(s *Schema, sptr string) (_ *Schema, err error) {
 			if len(seg) > 1 && seg[0] == '0' {
 				return nil, fmt.Errorf("segment %q has leading zeroes", seg)
 			}
+			// Only decimal digits: strconv.Atoi would also accept a sign ("+1", "-0"),
+			// which RFC 6901 does not.
+			if strings.Trim(seg, "0123456789") != "" {
+				return nil, fmt.Errorf("invalid int: %q", seg)
+			}
 			n, err := strconv.Atoi(seg)
 			if err != nil {
 				return nil, fmt.Errorf("invalid int: %q", seg)
